@@ -46,6 +46,13 @@ without checking that the document is attached (C11 defect).  `true` = tree with
 `FindActiveClientInfo` in both handlers).  Only `Server.init` reads it (into `Config`). -/
 def detachGuardFirst : Bool := true
 
+/-- ONE-LINE SWITCH.  `false` = pinned tree: `pushPack` stores changes pushed to a document that is
+already REMOVED (C11 finding F-C11-push-after-remove).  `true` = tree with
+`hooks/fix-c11-push-after-remove.patch` (the pushables are discarded when `currentDocInfo.IsRemoved()`,
+the way a stale epoch discards them; the response still carries the removed flag).  Only `Server.init`
+reads it (into `Config`). -/
+def pushAfterRemoveDiscards : Bool := false
+
 abbrev ClientId := Nat
 abbrev DocId := Nat
 
@@ -124,6 +131,7 @@ structure Config where
   removeOnDetach : Bool := false
   snapshotThreshold : Int := 1000000000
   detachGuardFirst : Bool := Server.detachGuardFirst
+  pushAfterRemoveDiscards : Bool := Server.pushAfterRemoveDiscards
 deriving Repr, Inhabited
 
 structure Server where
@@ -419,7 +427,8 @@ def epochDiffers (i : Client) (d : DocId) (docEpoch : Int) : Bool :=
   | none => false
 
 /-- steps 01–02 of `pushPack` before `CreateChangeInfos`: dedup filter, then (only when there is
-something to write) epoch test and `checkpoint.serverSeq > doc.serverSeq` -/
+something to write) epoch test and `checkpoint.serverSeq > doc.serverSeq`; with the repair switch
+`cfg.pushAfterRemoveDiscards` the pushables are discarded when the document is already removed -/
 def pushablesOf (f : Flight) : List ChangeReq :=
   f.pack.changes.filter (isPushable (f.info.checkpoint f.doc).clientSeq)
 
@@ -430,6 +439,7 @@ def pushGuard (s : Server) (f : Flight) : Except ErrKind (List ChangeReq) :=
     | some cur =>
       if epochDiffers f.info f.doc cur.epoch then .ok []
       else if f.pack.cp.serverSeq > cur.serverSeq then .error .invalidServerSeq
+      else if s.cfg.pushAfterRemoveDiscards && cur.removed then .ok []
       else .ok (pushablesOf f)
   else .ok (pushablesOf f)
 
